@@ -244,6 +244,16 @@ enum Act {
     Deliver { op: usize, name: &'static str, to: usize },
     Merge { from: usize, into: usize, verified: bool },
     MergeForeignBase { into: usize, verified: bool },
+    /// a register that carries pool op `op` without it ever having passed add_op (built by hand, as a peer could
+    /// send it) is checked with verify() and offered to replica `into` through verified_merge
+    MergeCrafted { op: usize, name: &'static str, into: usize },
+}
+
+/// `base` plus `op`, inserted straight into the op set.
+fn crafted_register(base: &SignedRegister, op: &RegisterOp) -> SignedRegister {
+    let mut j = serde_json::to_value(base).expect("register to json");
+    j["ops"].as_array_mut().expect("ops array").push(serde_json::to_value(op).expect("op to json"));
+    serde_json::from_value(j).expect("crafted register")
 }
 
 impl System for Replicas {
@@ -267,6 +277,12 @@ impl System for Replicas {
             for b in 0..self.regs.len() {
                 v.push(Act::MergeForeignBase { into: b, verified: false });
                 v.push(Act::MergeForeignBase { into: b, verified: true });
+            }
+        }
+        // whole registers carrying an op that must not enter (by the statement, under this permission setting)
+        for (i, p) in self.fx.pool.iter().enumerate() {
+            if self.fx.should_enter(p) == Some(false) {
+                v.push(Act::MergeCrafted { op: i, name: p.name, into: 0 });
             }
         }
         v
@@ -333,6 +349,28 @@ impl System for Replicas {
                         fails.push(Fail::new("reachable-state-valid", if *verified { "verified_merge-refused" } else { "merge-refused" }, format!("replica {from} (reachable) refused by replica {into}: {e:?}")));
                     }
                 }
+            }
+            Act::MergeCrafted { op, into, .. } => {
+                let p = &self.fx.pool[*op];
+                let crafted = crafted_register(&self.fx.base, &p.op);
+                match catch(|| crafted.verify()) {
+                    Err(pn) => fails.push(Fail::new("no-panic", "verify", format!("verify panicked: {pn}"))),
+                    Ok(Ok(())) => fails.push(Fail::new("op-admission", "invalid-op-passes-verify", format!("a register carrying {} (which must not enter a {:?} register) passes verify()", p.name, self.fx.perm))),
+                    Ok(Err(_)) => {}
+                }
+                let before = self.regs[*into].clone();
+                let dst = &mut self.regs[*into];
+                match catch(|| dst.verified_merge(&crafted)) {
+                    Err(pn) => fails.push(Fail::new("no-panic", "merge", format!("verified_merge panicked: {pn}"))),
+                    Ok(Ok(())) => fails.push(Fail::new("op-admission", "invalid-op-enters-through-verified-merge", format!("verified_merge accepted a register carrying {} into a {:?} register", p.name, self.fx.perm))),
+                    Ok(Err(_)) => {
+                        if self.regs[*into] != before {
+                            fails.push(Fail::new("merge-algebra", "failed-merge-changed-target", "a refused verified_merge changed the target".to_string()));
+                        }
+                    }
+                }
+                // the target is left as it was for the rest of the search (a violation has been reported if it was not)
+                self.regs[*into] = before;
             }
             Act::MergeForeignBase { into, verified } => {
                 let before = self.regs[*into].clone();
@@ -564,7 +602,7 @@ pub fn main(tier: Option<&str>) {
     run.rule(
         "(a) all 2^5 sub-registers of the authorised pool: every pair (verified_merge both ways) and every triple (merge) for two permission \
          settings; every permutation (+ one duplication) of every subset through RegisterCrdt::apply_op. (b) BFS, clone mode: 2(3) real \
-         SignedRegister replicas x 3 permission settings, actions Deliver(op in 10-op pool, r), Merge/verified_merge(r->s), merge with a \
+         SignedRegister replicas x 3 permission settings, actions Deliver(op in 10-op pool, r), Merge/verified_merge(r->s), verify/verified_merge of a hand-built register carrying an op that must not enter, merge with a \
          different base; state key = per replica the set of pool ops held. (c) BFS across the entry limit from replicas pre-filled to \
          1022..1024 entries. Non-trivial = involves at least two distinct operands.",
     );
